@@ -366,6 +366,98 @@ func c18Struct(c *Ctx, r *rng.R) {
 	if e := gocty.FromCtyValue(cty.NullVal(cty.String), &ps); e != nil || ps != nil {
 		c.Fail("C18/null-pointer", "null into a pointer target must store nil", nil)
 	}
+	// a member that cannot be stored makes the whole decoding fail, whatever collection carries it and wherever that
+	// collection sits
+	{
+		n := cty.NumberIntVal
+		bads := []cty.Value{n(300), n(-1), cty.NumberFloatVal(2.5), cty.MustParseNumberVal("1e30"), cty.NullVal(cty.Number), cty.UnknownVal(cty.Number)}
+		bad := bads[r.Intn(len(bads))]
+		good := n(int64(1 + r.Intn(5)))
+		members := []cty.Value{good, bad}
+		if r.Bool() {
+			members = []cty.Value{bad, good, n(7)}
+		}
+		type holder struct {
+			Vals []uint8 `cty:"vals"`
+		}
+		type mholder struct {
+			M map[string]uint8 `cty:"m"`
+		}
+		mapMembers := map[string]cty.Value{}
+		for k, m := range members {
+			mapMembers[fmt.Sprintf("k%d", k)] = m
+		}
+		carriers := []struct {
+			name string
+			v    cty.Value
+		}{{"list", cty.ListVal(members)}, {"set", cty.SetVal(members)}, {"tuple", cty.TupleVal(members)}, {"map", cty.MapVal(mapMembers)}}
+		for _, cr := range carriers {
+			c.Count("oracle_evals")
+			bd := map[string]interface{}{"carrier": cr.name, "value": cq.Show(cr.v)}
+			if cr.name == "map" {
+				var out map[string]uint8
+				var mh mholder
+				p1, _ := recovered(func() { err = gocty.FromCtyValue(cr.v, &out) })
+				if p1 || err == nil {
+					c.Fail("C18/member-refusal-lost", fmt.Sprintf("a %s with a member that does not fit uint8 was decoded into %v (panic=%v)", cr.name, out, p1), bd)
+				}
+				p2, _ := recovered(func() { err = gocty.FromCtyValue(cty.ObjectVal(map[string]cty.Value{"m": cr.v}), &mh) })
+				if p2 || err == nil {
+					c.Fail("C18/member-refusal-lost", fmt.Sprintf("a struct field holding that %s was decoded into %v (panic=%v)", cr.name, mh, p2), bd)
+				}
+				continue
+			}
+			var out []uint8
+			var arr [3]uint8
+			var h holder
+			p1, _ := recovered(func() { err = gocty.FromCtyValue(cr.v, &out) })
+			if p1 || err == nil {
+				c.Fail("C18/member-refusal-lost", fmt.Sprintf("a %s with a member that does not fit uint8 was decoded into %v (panic=%v)", cr.name, out, p1), bd)
+			}
+			if len(members) == 3 && cr.v.LengthInt() == 3 {
+				p3, _ := recovered(func() { err = gocty.FromCtyValue(cr.v, &arr) })
+				if p3 || err == nil {
+					c.Fail("C18/member-refusal-lost", fmt.Sprintf("a %s with a member that does not fit uint8 was decoded into the array %v (panic=%v)", cr.name, arr, p3), bd)
+				}
+			}
+			p2, _ := recovered(func() { err = gocty.FromCtyValue(cty.ObjectVal(map[string]cty.Value{"vals": cr.v}), &h) })
+			if p2 || err == nil {
+				c.Fail("C18/member-refusal-lost", fmt.Sprintf("a struct field holding that %s was decoded into %v (panic=%v)", cr.name, h, p2), bd)
+			}
+		}
+	}
+	// embedded fields with a tag are fields like any other: in the implied type, on the way in and on the way out
+	{
+		type Base struct {
+			Kind string `cty:"kind"`
+			N    int    `cty:"n"`
+		}
+		type withEmbedded struct {
+			Name      string `cty:"name"`
+			Base      `cty:"base"`
+			cty.Value `cty:"payload"`
+		}
+		we := withEmbedded{Name: gv.GenStr(r), Base: Base{Kind: "k", N: r.Intn(100)}, Value: cty.StringVal("p")}
+		c.Count("oracle_evals")
+		ety, e1 := gocty.ImpliedType(we)
+		ed := map[string]interface{}{"go": fmt.Sprintf("%+v", we)}
+		if e1 != nil || !ety.IsObjectType() || !ety.HasAttribute("base") || !ety.HasAttribute("payload") || !ety.HasAttribute("name") {
+			c.Fail("C18/embedded-field", fmt.Sprintf("the implied type of a struct with tagged embedded fields is %#v (err=%v)", ety, e1), ed)
+		} else {
+			var ev cty.Value
+			var e2 error
+			p1, _ := recovered(func() { ev, e2 = gocty.ToCtyValue(we, ety) })
+			var weBack withEmbedded
+			var e3 error
+			p2 := false
+			if !p1 && e2 == nil {
+				p2, _ = recovered(func() { e3 = gocty.FromCtyValue(ev, &weBack) })
+			}
+			if p1 || p2 || e2 != nil || e3 != nil || weBack.Name != we.Name || weBack.Base != we.Base || !weBack.Value.RawEquals(we.Value) {
+				c.Fail("C18/embedded-field", fmt.Sprintf("round trip of a struct with tagged embedded fields: %+v (errors %v %v)", weBack, e2, e3), ed)
+			}
+		}
+	}
 	// the numeric case keeps the correspondence fed even for struct indices
 	c.Add("to/struct-id", fmt.Sprintf("K18_to (GInt %s) %s", cq.Z(int64(o.ID)), cq.BF(v.GetAttr("id").AsBigFloat())), desc, true)
 }
